@@ -80,6 +80,7 @@ End == IsEv("end") /\ UNCHANGED <<q, kind>> /\ (Mode = "own" => (E.led = <<>> /\
 New == IsEv("new") /\ E.exc = "" /\ Step(With(q, E.o, E.init), With(kind, E.o, E.what))
 
 Push   == (IsEv("push") \/ IsEv("append")) /\ E.exc = "" /\ Upd(Append(S, E.v))
+PushSame == IsEv("pushsame") /\ E.exc = "" /\ S # <<>> /\ Upd(Append(S, S[1]))
 PopOk  == IsEv("pop") /\ S # <<>> /\ E.exc = "" /\ Upd(SubSeq(S, 1, Len(S) - 1))
 PopFail == IsEv("pop") /\ S = <<>> /\ Fails({"IndexOutOfBoundsError"})
 PushAtOk == /\ IsEv("pushat") /\ PushAtPos(K, Len(S), E.i) # -1 /\ E.exc = ""
@@ -121,7 +122,7 @@ Expected(w) ==
     [] OTHER -> {}
 Bad == IsEv("bad") /\ Fails(Expected(E.what))
 
-Next == \/ Reset \/ End \/ New \/ Push \/ PopOk \/ PopFail \/ PushAtOk \/ PushAtFail \/ PopAtOk \/ PopAtFail
+Next == \/ Reset \/ End \/ New \/ Push \/ PushSame \/ PopOk \/ PopFail \/ PushAtOk \/ PushAtFail \/ PopAtOk \/ PopAtFail
         \/ SetOk \/ SetFail \/ GetOk \/ GetFail \/ RemOk \/ RemFail \/ MemEv \/ Concat \/ ConcatV \/ ResizeOk \/ ResizeFail
         \/ SortEv \/ SortUnsupported \/ Assign \/ Copy \/ Del \/ Bad
 
